@@ -1,1 +1,117 @@
 // Kani contract harnesses for /repo/arrow-cast/src/parse.rs (child module: sees private items via super::)
+// Only the tiny pure-integer helpers are in reach; everything that walks a `str` (parse_decimal,
+// parse_e_notation, string_to_datetime, interval component parsing, lexical-core float/int parsers) and
+// everything that goes through chrono (TimestampParser::date/time) is NOT covered.
+use super::*;
+#[path = "/verif/kani/support/spec.rs"]
+mod spec;
+use spec::*;
+
+const P10: [u64; 10] = [1, 10, 100, 1_000, 10_000, 100_000, 1_000_000, 10_000_000, 100_000_000, 1_000_000_000];
+
+// Contract (C13, text -> temporal: sub-second digits): for N ASCII digits d[0..N) (as raw bytes with offset
+// O = b'0', or as pre-subtracted values with O = 0) followed by arbitrary further bytes,
+//   parse_nanos::<N,O>(d) == (decimal number d[0]..d[N-1]) * 10^(9-N)     (the fraction 0.d0..d(N-1) in ns)
+// and the result is < 10^9; no overflow.  Digits beyond N are ignored.
+macro_rules! nanos_unit {
+    ($name:ident, $n:expr, $o:expr) => {
+        #[kani::proof]
+        #[kani::unwind(12)]
+        fn $name() {
+            const N: usize = $n;
+            let d: [u8; 10] = kani::any();
+            let mut want: u64 = 0;
+            let mut i = 0;
+            while i < N {
+                let v = d[i].wrapping_sub($o);
+                kani::assume(v < 10);
+                want = want * 10 + v as u64;
+                i += 1;
+            }
+            let extra: usize = kani::any();
+            kani::assume(extra <= 10 - N);
+            let got = parse_nanos::<N, { $o }>(&d[..N + extra]);
+            assert!(got as u64 == want * P10[9 - N]);
+            assert!(got < 1_000_000_000);
+            kani::cover!(got == 999_999_999 / (P10[9 - N] as u32) * (P10[9 - N] as u32));
+            kani::cover!(extra > 0 && got != 0);
+        }
+    };
+}
+// @unit name=parse_nanos_1 props=C13 kind=complete fns=parse_nanos timeout=120
+nanos_unit!(parse_nanos_1, 1, b'0');
+// @unit name=parse_nanos_3 props=C13 kind=complete fns=parse_nanos timeout=120
+nanos_unit!(parse_nanos_3, 3, 0);
+// @unit name=parse_nanos_6 props=C13 kind=complete fns=parse_nanos timeout=120
+nanos_unit!(parse_nanos_6, 6, 0);
+// @unit name=parse_nanos_9 props=C13 kind=complete fns=parse_nanos timeout=240
+nanos_unit!(parse_nanos_9, 9, b'0');
+
+// Contract (C13, text -> timestamp: digit classification): for every byte string of <= 34 bytes:
+//   TimestampParser::new(b): for i < min(len, 32): digits[i] == b[i] - b'0' (mod 256) and mask bit i is
+//   set <=> b[i] is an ASCII digit; for i >= len: digits[i] == 0 and mask bit i clear (frame); bytes past
+//   index 31 are ignored; test(i, c) <=> b[i] == c for i < min(len, 32).
+// @unit name=timestamp_parser_new props=C13 kind=bounded bound=input<=34_bytes fns=TimestampParser::new,TimestampParser::test timeout=600 mem=3
+#[kani::proof]
+#[kani::unwind(36)]
+fn timestamp_parser_new() {
+    let b: [u8; 34] = kani::any();
+    let len: usize = kani::any();
+    kani::assume(len <= 34);
+    let p = TimestampParser::new(&b[..len]);
+    let i: usize = kani::any();
+    kani::assume(i < 32);
+    if i < len {
+        assert!(p.digits[i] == b[i].wrapping_sub(b'0'));
+        assert!(((p.mask >> i) & 1 == 1) == (b[i] >= b'0' && b[i] <= b'9'));
+        let c: u8 = kani::any();
+        assert!(p.test(i, c) == (b[i] == c));
+    } else {
+        assert!(p.digits[i] == 0 && (p.mask >> i) & 1 == 0);
+    }
+    kani::cover!(len == 34 && i == 31 && (p.mask >> 31) & 1 == 1);
+    kani::cover!(len == 0);
+    kani::cover!(i < len && (p.mask >> i) & 1 == 0);
+}
+
+// Contract (C13, text -> interval): for every (months, days, nanos):
+//   Interval::to_year_months is Ok(m) <=> days == 0 && nanos == 0, and then m == months;
+//   Interval::to_day_time:  Ok((d, ms)) => d == 30*months + days (exact, computed in i64) and
+//       ms * 10^6 == nanos (exact, negatives included);
+//     Err => 30*months + days does not fit i32, or nanos is not a whole number of milliseconds, or that
+//       number does not fit i32   (never a panic).
+//   The Err side uses core's i64 `%` and `/` by the constant 10^6 as the specification (a division-free
+//   statement with an existential witness did not finish in 900 s).
+// Stubs: alloc::fmt::format.
+// NOT CONFIRMED under load (never seen to finish on the shared machine, load 40-75): keep tier=thorough until re-measured
+// @unit name=interval_to_day_time props=C13 kind=complete fns=Interval::to_day_time,Interval::to_year_months,Interval::to_month_day_nanos timeout=900 mem=4 tier=thorough
+#[kani::proof]
+#[kani::stub(alloc::fmt::format, stub_format)]
+fn interval_to_day_time() {
+    let (months, days): (i32, i32) = (kani::any(), kani::any());
+    let nanos: i64 = kani::any();
+    let iv = Interval::new(months, days, nanos);
+    assert!(iv.to_month_day_nanos() == (months, days, nanos));
+    let ym = iv.to_year_months();
+    assert!(ym.is_ok() == (days == 0 && nanos == 0));
+    if let Ok(m) = &ym { assert!(*m == months); }
+    let dt = iv.to_day_time();
+    let d = (months as i64) * 30 + days as i64;
+    let d_fits = d >= i32::MIN as i64 && d <= i32::MAX as i64;
+    match &dt {
+        Ok((gd, gms)) => {
+            assert!(*gd as i64 == d);
+            assert!((*gms as i64) * 1_000_000 == nanos);
+        }
+        Err(_) => {
+            let q = nanos / 1_000_000;
+            assert!(!d_fits || nanos % 1_000_000 != 0 || q < i32::MIN as i64 || q > i32::MAX as i64);
+        }
+    }
+    kani::cover!(dt.is_ok() && nanos < 0);
+    kani::cover!(dt.is_err() && d_fits && nanos % 1_000_000 == 0);
+    kani::cover!(dt.is_err() && !d_fits);
+    kani::cover!(ym.is_ok());
+    std::mem::forget(dt);
+    std::mem::forget(ym);
+}
